@@ -21,6 +21,11 @@ pub struct Case {
     pub deliver: Vec<u32>,
     /// explicit cut positions (absolute offsets) used instead of `deliver` when non-empty
     pub cuts: Vec<u32>,
+    /// receiver parameters: strict length checking, and which maximum PDU length is passed (it also sizes the buffer)
+    #[serde(default)]
+    pub strict: bool,
+    #[serde(default)]
+    pub max_sel: u8,
 }
 
 struct Src {
@@ -94,12 +99,18 @@ fn check(c: &Case, obs: &mut Obs) {
     // only values the writer can express
     let mut stream = vec![];
     let mut want = vec![];
+    let mut longest = 0usize;
     for p in &c.pdus {
         if let Ok(b) = rp::encode(p) {
+            longest = longest.max(b.len() - 6);
             stream.extend(b);
             want.push(p.clone());
         }
     }
+    let max = [MAXIMUM_PDU_SIZE, 16_384, 1_018, 65_536][c.max_sel as usize % 4];
+    // strict mode refuses PDUs longer than the maximum (C25's subject): it is used only when every PDU fits
+    let strict = c.strict && longest <= max as usize;
+    obs.class(format!("receiver:{}:max-{max}", if strict { "strict" } else { "lenient" }));
     if want.is_empty() {
         obs.skip("no encodable PDU in the case");
         return;
@@ -128,9 +139,9 @@ fn check(c: &Case, obs: &mut Obs) {
         let mut cx = Context::from_waker(&waker);
         for _ in 0..want.len() + 1 {
             let r = if !is_async {
-                read_pdu_from_wire(&mut src, &mut buf, MAXIMUM_PDU_SIZE, false)
+                read_pdu_from_wire(&mut src, &mut buf, max, strict)
             } else {
-                let fut = read_pdu_from_wire_async(&mut src, &mut buf, MAXIMUM_PDU_SIZE, false);
+                let fut = read_pdu_from_wire_async(&mut src, &mut buf, max, strict);
                 tokio::pin!(fut);
                 let mut out = None;
                 for _ in 0..10_000_000u32 {
@@ -203,18 +214,20 @@ pub fn run(ctx: &Ctx) {
             continue;
         }
         let cuts: Vec<u32> = (0..m).filter(|i| mask >> i & 1 == 1).map(|i| relevant[i]).collect();
-        small.push(Case { pdus: base.clone(), deliver: vec![], cuts });
+        for strict in [false, true] {
+            small.push(Case { pdus: base.clone(), deliver: vec![], cuts: cuts.clone(), strict, max_sel: (mask.count_ones() + mask) as u8 % 3 });
+        }
     }
     ctx.run_enum(
         "exhaustive_small_segmentations",
-        "exhaustive: a fixed stream of three short PDUs (A-RELEASE-RQ, A-ABORT, P-DATA of 3 bytes; 35 bytes) cut at every subset of <= 4 positions out of 19 boundary-relevant offsets (inside a header, at the header end, inside a body, at a PDU end, inside the next header): sync and async receivers with one shared buffer return exactly the sequence, then ConnectionClosed, having taken exactly the stream",
+        "exhaustive: a fixed stream of three short PDUs (A-RELEASE-RQ, A-ABORT, P-DATA of 3 bytes; 35 bytes) cut at every subset of <= 4 positions out of 19 boundary-relevant offsets (inside a header, at the header end, inside a body, at a PDU end, inside the next header): sync and async receivers, each strict and lenient, with a maximum PDU length of MAXIMUM_PDU_SIZE / 16384 / 1018 (rotating) and one shared buffer return exactly the sequence, then ConnectionClosed, having taken exactly the stream",
         small,
         true,
         check,
     );
     ctx.run_prop(
         "random_segmentations",
-        "1-8 G-PDU values (all kinds, P-DATA up to 70 000 bytes) concatenated from the reference encoder, delivered by a scripted Read / AsyncRead in chunks cycling through 1-8 sizes (1-byte reads, all at once, interleaved Pending for async) or cut at explicit random offsets; oracle as above; non-trivial = >= 2 PDUs or a PDU split across reads",
+        "1-8 G-PDU values (all kinds, P-DATA up to 70 000 bytes) concatenated from the reference encoder, received strictly (when every PDU fits the maximum) or leniently with a maximum PDU length of MAXIMUM_PDU_SIZE / 65536 / 16384 / 1018, delivered by a scripted Read / AsyncRead in chunks cycling through 1-8 sizes (1-byte reads, all at once, interleaved Pending for async) or cut at explicit random offsets; oracle as above; non-trivial = >= 2 PDUs or a PDU split across reads",
         || {
             (
                 proptest::collection::vec(pdu(false), 1..9),
@@ -224,12 +237,14 @@ pub fn run(ctx: &Ctx) {
                     4 => proptest::collection::vec(prop_oneof![3 => 1u32..16, 2 => 16u32..5000, 1 => Just(0u32), 1 => 5000u32..100_000], 1..9),
                 ],
                 prop_oneof![2 => Just(vec![]), 1 => proptest::collection::vec(0u32..4000, 1..8)],
+                any::<bool>(),
+                0u8..4,
             )
-                .prop_map(|(pdus, mut deliver, cuts)| {
+                .prop_map(|(pdus, mut deliver, cuts, strict, max_sel)| {
                     if !deliver.is_empty() && deliver.iter().all(|d| *d == 0) {
                         deliver.push(3);
                     }
-                    Case { pdus, deliver, cuts }
+                    Case { pdus, deliver, cuts, strict, max_sel }
                 })
                 .boxed()
         },
